@@ -656,7 +656,17 @@ def run(tier):
         rt = real_tokenize(model, src + " ")
         ok = bool(rt) and rt[0][0] == cls and rt[0][1:3] == (0, L)
         if ok:
-            raise HarnessError(f"VC3 model for {cls} does not reproduce on the real lexer: {src!r} -> {rt}")
+            # the right context matters (e.g. a following '.1' pulled into the token): replay the witness exactly as the solver gave it
+            src = w
+            rest = w[L:]
+            rt = real_tokenize(model, src)
+            ok = bool(rt) and rt[0][0] == cls and rt[0][1:3] == (0, L)
+            if ok:
+                raise HarnessError(f"VC3 model for {cls} does not reproduce on the real lexer: {src!r} -> {rt}")
+            body = ("from vf.props import c08\nfrom vf import rx\n" f"src = {src!r}\nrt = c08.real_tokenize(rx.LexModel(), src)\nprint(repr(src), '->', rt)\n"
+                    f"sys.exit(0 if (rt and rt[0][0] == {cls!r} and rt[0][1:3] == (0, {L})) else 1)\n")
+            ck.violation(f"literal {lit!r} of class {cls} followed by {rest!r} lexes as {rt[:3]}", ck.write_replay(body), key=dict(kind="literal", cls=cls, shape="right-context"))
+            continue
         body = ("from vf.props import c08\nfrom vf import rx\n" f"src = {src!r}\nrt = c08.real_tokenize(rx.LexModel(), src + ' ')\nprint(repr(src), '->', rt)\n"
                 f"sys.exit(0 if (rt and rt[0][0] == {cls!r} and rt[0][1:3] == (0, {L})) else 1)\n")
         import re as _re
